@@ -157,5 +157,6 @@ func main() {
 	}
 	proofs(c)
 	sectorProofs(c)
+	multiProofs(c)
 	c.Finish()
 }
